@@ -666,6 +666,15 @@ fn run_scenario(scn: &Scn) -> Result<String, String> {
             let r = eval_all(&mut vm, &format!("(c19-deep-fail {})", n));
             let frames = vm.last_stacktrace().map(|t| t.frames.len()).unwrap_or(0);
             let after = eval_all(&mut vm, "(c19-deep 10)")?;
+            // a continuation captured at depth outlives another abandoned computation and is
+            // re-entered afterwards
+            phase("drop:capture-at-depth");
+            eval_all(&mut vm, &format!("(c19-deep-k {})", n))?;
+            phase("drop:error-at-depth");
+            let _ = eval_all(&mut vm, "(c19-deep-fail 50)");
+            phase("drop:re-enter-continuation-captured-at-depth");
+            let back = eval_all(&mut vm, "(if (< c19-hits 1) (begin (set! c19-hits (+ c19-hits 1)) (c19-k 7)) 'done)")?;
+            let after = format!("{:#} re-entered={:#}", after, back);
             phase("drop:vm");
             drop(vm);
             match r {
